@@ -192,6 +192,7 @@ def guard(fn, *a, **k) -> str:
     except RecursionError:
         raise
     except _OpHang:
+        _wd["hangs"] = _wd.get("hangs", 0) + 1
         return "!hang"
     except Exception as e:  # noqa: BLE001
         return exc_name(e)
@@ -572,6 +573,10 @@ class Ctx:
         t_suite = time.time()
         budget = float(os.environ.get("PYODA_SUITE_BUDGET_S", "21600" if self.thorough else "1500"))
         for n_done, (op, m) in enumerate(zip(ops, model)):
+            if getattr(self, "hangs", 0) >= 3:
+                self.add_failure({"key": "suite-stopped-after-hangs", "what": f"suite {suite}: stopped after {self.hangs} operations that did not return"},
+                                 op=op, source=f"budget@{suite}")
+                break
             if n_done % 64 == 0 and time.time() - t_suite > budget:
                 # on the unchanged tree every suite finishes in a small fraction of this; a suite that does not is real
                 # code that has stopped making progress in bounded time (walks that never reach their end, ...)
@@ -643,6 +648,7 @@ class Ctx:
         except RecursionError:
             raise
         except _OpHang:
+            self.hangs = getattr(self, "hangs", 0) + 1
             return {"key": "operation-does-not-return", "what": f"the property oracle for {' '.join(toks)[:200]} did not finish within "
                     f"{OP_WATCHDOG_S:.0f} s: a call into the code under test does not return"}
         except Exception as e:  # noqa: BLE001
@@ -656,6 +662,8 @@ class Ctx:
         """Direct oracle: fn(case) -> None | failure dict (must include 'key' and 'what')."""
         st = self.oracles.setdefault(name, {"cases": 0, "failures": 0, "exhaustive": exhaustive})
         for c in cases:
+            if getattr(self, "hangs", 0) >= 3:
+                break
             st["cases"] += 1
             self.evaluations += 1
             import signal
@@ -668,6 +676,7 @@ class Ctx:
             except RecursionError:
                 raise
             except _OpHang:
+                self.hangs = getattr(self, "hangs", 0) + 1
                 f = {"key": "operation-does-not-return", "what": f"oracle {name}: case {str(c)[:200]} did not finish within {OP_WATCHDOG_S * 2:.0f} s"}
             except Exception as e:  # noqa: BLE001
                 f = {"key": "oracle-exception", "what": f"{type(e).__name__}: {e}", "trace": traceback.format_exc()[-800:]}
